@@ -270,12 +270,14 @@ def handler(case):
                     lineage[td].append(["transplant", dpath, src_lin, spath, text])
             elif k in ("flatten", "sympy", "xml"):
                 t = op[1]
+                d_before = digest(trees[t]) if k != "flatten" else None
                 got = do_flatten(trees[t], op[2]) if k == "flatten" else do_generate(k, trees[t], op[2])
+                d_after = digest(trees[t]) if k != "flatten" else None
                 ref = parse(text)
                 for e in lineage[t]:
                     apply_edit(ref, e)
                 want = do_flatten(ref, op[2]) if k == "flatten" else do_generate(k, ref, op[2])
-                r = {"got": got, "want": want}
+                r = {"got": got, "want": want, "tree_unchanged": d_before == d_after}
             else:
                 t = op[1]
                 apply_edit(trees[t], [k] + op[2:])
